@@ -168,7 +168,6 @@ func replayHistory(id any, ops []StoreOp, s storeSetup) (events []any) {
 			k := keptSource{src, map[string]mgjson.Atom{}}
 			for _, a := range op.From {
 				src.Add(mgjson.ASTAtom(a))
-				k.atoms[mgjson.Key(a)] = a
 			}
 			fs.Merge(src)
 			from := op.From
@@ -177,17 +176,22 @@ func replayHistory(id any, ops []StoreOp, s storeSetup) (events []any) {
 			}
 			events = append(events, map[string]any{"ev": "merge", "from": from})
 			// the source changes afterwards: the merged-into store must not follow
+			hadMarker := fs.Contains(mgjson.ASTAtom(marker))
 			src.Add(mgjson.ASTAtom(marker))
-			k.atoms[mgjson.Key(marker)] = marker
-			if fs.Contains(mgjson.ASTAtom(marker)) {
+			if !hadMarker && fs.Contains(mgjson.ASTAtom(marker)) {
 				events = append(events, map[string]any{"ev": "alias", "detail": "a fact added to the merge source afterwards shows up in the store"})
 			}
 			if len(op.From) > 0 {
+				had := fs.Contains(mgjson.ASTAtom(op.From[0]))
 				src.Remove(mgjson.ASTAtom(op.From[0]))
-				delete(k.atoms, mgjson.Key(op.From[0]))
-				if !fs.Contains(mgjson.ASTAtom(op.From[0])) {
+				if had && !fs.Contains(mgjson.ASTAtom(op.From[0])) {
 					events = append(events, map[string]any{"ev": "alias", "detail": "a fact removed from the merge source afterwards disappeared from the store"})
 				}
+			}
+			// what the source holds now (read back, not assumed: the source is a store with its own behaviour)
+			// is what it must still hold after every later operation on the store it was merged into
+			for _, p := range src.ListPredicates() {
+				src.GetFacts(ast.NewQuery(p), func(a ast.Atom) error { k.atoms[mgjson.Key(mgjson.FromAtom(a))] = mgjson.FromAtom(a); return nil })
 			}
 			kept = append(kept, k)
 		case "preds":
